@@ -74,6 +74,7 @@ func c17Compare(vt *VT, r *refTerm, wantState State) string {
 }
 
 func c17Run(c ttyCase) (*vlib.Failure, c17Stats) {
+	defer vlib.Guard("C17", c, nil)()
 	var st c17Stats
 	if err := ttyValidCons(c.Cons); err != nil {
 		return vlib.Failf("invalid case: %v", err), st
